@@ -921,9 +921,11 @@ func recordQualifiedReferences(node *lisp.LVal, refs map[string]bool) {
 			refs[pkg+"/"+name] = true
 		}
 	case lisp.LSExpr:
-		if node.IsQuoted() {
-			return
-		}
+		// Quoted lists are searched too.  A bracket list is parsed as a
+		// quoted list, and binding forms evaluate what is written inside one
+		// (`(let ([cb router:helper]) ...)`), so "quoted" does not mean "not
+		// a reference" here.  Recording a name that is only ever data merely
+		// keeps one more definition under its own name.
 		for _, child := range node.Cells {
 			recordQualifiedReferences(child, refs)
 		}
@@ -931,10 +933,10 @@ func recordQualifiedReferences(node *lisp.LVal, refs map[string]bool) {
 		lisp.LFun, lisp.LQuote, lisp.LString, lisp.LBytes, lisp.LSortMap,
 		lisp.LArray, lisp.LNative, lisp.LTaggedVal, lisp.LMarkTerminal,
 		lisp.LMarkTailRec, lisp.LMarkMacExpand, lisp.LTypeMax:
-		// Nothing to record.  Literals carry no package qualification, and
-		// LQuote is skipped for the same reason the quoted-LSExpr branch
-		// above bails out: a quoted form is data, not a reference.  The rest
-		// are runtime-only values that never appear in a parsed file.
+		// Nothing to record.  Literals carry no package qualification, an
+		// LQuote node (two or more quotes in a row) can only be data, and
+		// the rest are runtime-only values that never appear in a parsed
+		// file.
 	}
 }
 
